@@ -3,7 +3,8 @@
 // mode "blame": {"commits": [{"parents": [idx...], "when": unix, "content": hex | null}...], "head": idx}
 //     commits are listed parents-first; each commit's tree holds the file "f" (when content != null)
 //     and a constant file "keep".  -> git.Blame(head, "f")
-//     out: ( ok ( idx ... ) ) — per final line the index of the commit it is attributed to
+//     out: ( ok ( idx ... ) true ) — per final line the index of the commit it is attributed to; the constant
+//     true stands for "the recorded go-diff answers satisfy the oracle contract", which the model evaluates
 //     extra: per line text (hex), the commit ids, the go-diff chunk shapes for every (parent, child) edge
 // mode "diff": {"pairs": [[srchex, dsthex]...]} -> extra.diffs: [[ [op, nlines]... ]...] of utils/diff.Do
 //     (op: 0 Equal, 1 Add, 2 Delete) — lets the generator record the line-diff oracle's answers in the case
@@ -121,6 +122,6 @@ func main() {
 			who = append(who, i)
 			lines = append(lines, lib.Render(lib.Str(l.Text))[1:])
 		}
-		return lib.Ok(lib.List(outs...)), map[string]any{"ids": idhex, "who": who, "lines": lines}
+		return lib.Ok(lib.List(outs...), lib.Bool(true)), map[string]any{"ids": idhex, "who": who, "lines": lines}
 	})
 }
